@@ -17,8 +17,8 @@ for d in /verif/seeded/* ${EXTRA_DIRS}; do
   ./harness/bin/vh srcfacts -repo $S/wt -out $S/out >/dev/null 2>&1
   if cmp -s $S/out/ChainSkel.lean $S/orig/ChainSkel.lean && cmp -s $S/out/DBSkel.lean $S/orig/DBSkel.lean; then echo "$id skeleton-unchanged"; continue; fi
   r=""
-  for m in C01Src C03Src C04Src C19Src C17Src; do
-    { echo "import Verif.Lemmas.SkelTok"; strip $S/out/ChainSkel.lean; strip $S/out/DBSkel.lean; strip lean/Verif/Props/$m.lean; } > $S/X_$m.lean
+  for m in C01Src C03Src C04Src C05Src C19Src C17Src; do
+    { echo "import Verif.Lemmas.SkelTok"; echo "import Verif.Lemmas.LockTab"; strip $S/out/ChainSkel.lean; strip $S/out/DBSkel.lean; strip lean/Verif/Props/$m.lean; } > $S/X_$m.lean
     if ! (cd lean && lake env lean $S/X_$m.lean >$S/b.log 2>&1); then
       r="$r $m($(grep -c 'error' $S/b.log) errors)"
     fi
